@@ -47,6 +47,16 @@ def shapes(tier):
     return [(a, m) for a in ad for m in ml]
 
 
+def _inlined_module(js):
+    """the inlined view (file-local helpers inlined into their callers) of a lowered module"""
+    import os
+    from . import ir as _ir
+    out = js[:-5] + ".inlined.json"
+    if not os.path.exists(out):
+        repo.run([repo.IRDUMP, "--inline-internal", os.path.join(os.path.dirname(js), "linked.opt.ll"), out])
+    return _ir.Module.load(out)
+
+
 def run(rep, tier):
     rep.explanation = (
         "For each back-end family (64-bit words, bit-interleaved, direct / generic byte access) the IR of the "
@@ -82,7 +92,7 @@ def run(rep, tier):
     from . import widths
     rep.rule("C01.D2", "length arithmetic in the library keeps the full width of size_t (no zero-extended 32-bit mask)")
     for js, cname, layout, maxs, units in prep:
-        widths.rule(rep, "C01.D2", modes.load_module(js), cname, files=("/src/aead/", "/src/core/"))
+        widths.rule(rep, "C01.D2", _inlined_module(js), cname, files=("/src/aead/", "/src/core/"), inlined=True)
     widths.control(rep, "C01.D2")
 
 
